@@ -988,8 +988,11 @@ func Run(ext []ExtStruct) {
 	}
 	wg.Wait()
 
+	tds := newStats()
+	tupDispatchPart(tds, thorough)
 	total := newStats()
-	perClass := map[string]*stats{}
+	total.merge(tds)
+	perClass := map[string]*stats{"tup-dispatch": tds}
 	perSubject := map[string]uint64{}
 	for i, r := range results {
 		total.merge(r)
@@ -1074,6 +1077,7 @@ func Run(ext []ExtStruct) {
 			"prim":              "11 primitive types x require/optional x tags {0,14,15,255} x C06 lattice",
 			"slice":             "vector<byte> and vector<unsigned byte> x tags {0,15} x lengths {0,1,3,255,256} as SimpleList and as LIST",
 			"tup":               "hand-listed attribute sets (0-3 entries, key/value lengths 0,1,2,3,255,256; more length pairs in thorough)",
+			"tup-dispatch":      "TUP-versioned requests for logf.Log.logger (5 parameters, attribute orders: 12 of the 120 in quick, all in thorough) and adminf.AdminF.notify through the generated dispatchers: every prefix of the attribute-set body; the servant may be invoked for the complete body only",
 			"prefix":            "every proper prefix of every baseline",
 			"inflate":           "STRING1: every length > remaining up to 255; STRING4: remaining+1, +2, +255, 65536, 2^20, 2^31-1, 2^31, 2^32-1; LIST/MAP/SimpleList: remaining+1, +2, 127, 128, 255, 256, 32767, 32768, 65536 (SimpleList also 2^20, MAP also remaining/2+1), each only if > remaining; never a length that makes the implementation allocate more than ~2 MiB",
 			"substitute":        "every field at every nesting level x every well-formed alternative (21 fields covering the 13 field wire types) whose wire type is inadmissible for the schema type",
@@ -1175,6 +1179,18 @@ func replay(run *common.Run) {
 	if err := common.LoadReplay(run.Replay, &c); err != nil {
 		run.InfraError("replay file: %v", err)
 		run.Finish(nil, nil)
+	}
+	if strings.HasPrefix(c.Subject, "tup-dispatch:") {
+		// the family is small: run it again as a whole
+		st := newStats()
+		tupDispatchPart(st, true)
+		for sig, v := range st.viols {
+			run.Violation(sig, v.what, v.c)
+		}
+		if len(st.viols) == 0 {
+			fmt.Println("the violation is gone")
+		}
+		run.Finish(map[string]any{"states": st.cases, "transitions": st.cases, "traces_validated_against_impl": st.implRuns, "samples": []string{c.Input}}, nil)
 	}
 	subjects, err := buildSubjectsNoBases()
 	if err != nil {
